@@ -5,7 +5,7 @@
     measure is compositional: the cost of the active frame plus the costs of the waiting
     frames below it, where every waiting frame is charged for the worst continuation that
     is compatible with what the frames above it are predicted to return. *)
-From Coq Require Import Lia ZArith.
+From Coq Require Import Lia ZArith Arith.
 From ASModel Require Import Base State Orderings_gen Step Run Progress.
 
 Local Notation n2 := N.to_nat.
@@ -121,7 +121,10 @@ Definition tpred (sh : shared) (l : tlocal) (p : pc) : pred :=
   | LH8 _ _ r | LH9 _ r | LH10 _ r => PFresh r
   | K1 c cur _ v _ =>
       if curv sh c =? cur then (if v =? cur then PVal cur else PNone) else PFresh (curv sh c)
-  | S1 _ _ | RAlloc _ _ _ _ | RInc _ _ _ _ => PNone
+  | S1 _ _ | RAlloc _ _ _ _ | RInc _ _ _ _ | Q1 _ _ _ => PNone
+  | P1 _ _ | P2 _ _ | P3 _ _ _ | PE0d _ _ _ | PE0e _ _ _ | PE1 _ _ _ | PE2 _ _ _ _ | PE3 _ _ _ _
+  | PE4 _ _ _ _ _ | PE5 _ _ _ _ _ _ | PE6 _ _ _ _ _ _ _ | PE7 _ _ _ _ _ _ _ | PE8 _ _ _ _
+  | PE9 _ _ _ _ _ | PS _ _ _ _ | PSi _ _ _ _ | P5 _ _ _ | P6 _ _ => PNone
   | PDec _ (RGuard v _) => PFresh v
   | _ => PKeep
   end.
@@ -143,8 +146,8 @@ Definition casj (sh : shared) (k : nat) (pr : pred) (c cur : N) : option nat :=
   | _ => Some (k + 1)
   end.
 
-Definition retryj (sh : shared) (k : nat) (pr : pred) (c cur : N) : nat :=
-  if reads_store pr then k + um sh c cur else k + 1.
+Definition retryo (sh : shared) (k : nat) (pr : pred) (c cur : N) : option nat :=
+  if reads_store pr then (if curv sh c =? cur then Some k else None) else Some (k + 1).
 
 (* (more nodes, cost given the head bound) of the continuation of rcu after its
    compare_and_swap returned *)
@@ -158,7 +161,7 @@ Definition rcuq (sh : shared) (pr : pred) (c : N) : option (N * bool) :=
 Definition wnp (sh : shared) (k : nat) (pr : pred) (w : pc) : nat :=
   match w with
   | WCasLoad c cur _ => match casj sh k pr c cur with Some j => j + 1 | None => 0 end
-  | WCasRetry c cur _ => retryj sh k pr c cur + 2
+  | WCasRetry c cur _ => match retryo sh k pr c cur with Some j => j + 2 | None => 1 end
   | WRcuLoad c _ => match pr with PFresh v => att_np sh c v k | _ => k + 3 end
   | WRcuCas c _ p _ =>
       match rcuq sh pr c with
@@ -177,7 +180,8 @@ Definition wcost (sh : shared) (k H : nat) (pr : pred) (cz : option N) (w : pc) 
   | WHelpRepl _ _ w ctl => bw w + 5 + phi2 sh cz w ctl * RD2
   | WDropOld | WDropStore _ | WCacheReload _ _ _ | WCasPaid _ _ => 1
   | WCasLoad c cur _ => match casj sh k pr c cur with Some j => AC j H k | None => 1 end
-  | WCasRetry c cur _ => LOADX H k + AC (retryj sh k pr c cur) H k
+  | WCasRetry c cur _ =>
+      match retryo sh k pr c cur with Some j => LOADX H k + AC j H k | None => LOADX H k + 1 end
   | WRcuLoad c _ => match pr with PFresh v => att sh c v H k | _ => ATTb H k end
   | WRcuCas c _ p _ =>
       match rcuq sh pr c with
@@ -298,13 +302,13 @@ Section Mono.
     - cbn. destruct (_ =? _); cbn; try lia; auto.
   Qed.
 
-  Lemma retryj_mono c cur : retryj sh' k' pr' c cur <= retryj sh k pr c cur.
+  Lemma retryo_mono c cur : ole (retryo sh' k' pr' c cur) (retryo sh k pr c cur).
   Proof.
-    pose proof (um_le1 sh' c cur). pose proof (um_st c cur) as Hu. unfold retryj.
-    destruct Hle as [->|[->|(v & -> & ->)]]; cbn.
-    - destruct (reads_store pr'); lia.
-    - destruct (reads_store pr) eqn:E; [rewrite Hu by reflexivity|]; lia.
-    - lia.
+    unfold retryo.
+    destruct Hle as [->|[->|(v & -> & ->)]]; cbn [reads_store].
+    - destruct (reads_store pr'); [destruct (_ =? _)|]; cbn; lia.
+    - destruct (reads_store pr) eqn:E; [rewrite (Hst eq_refl); destruct (_ =? _)|]; cbn; auto; lia.
+    - destruct (_ =? _); cbn; lia.
   Qed.
 
   Lemma att_st c q H' H : reads_store pr = true -> H' <= H ->
@@ -327,7 +331,7 @@ Section Mono.
     destruct w; cbn [wnp]; try lia;
       try (pose proof (att_st c) as As; pose proof (att_le_b c) as Ab).
     - pose proof (casj_mono c cur) as Hc. destruct (casj sh' k' pr' c cur), (casj sh k pr c cur); cbn in Hc; try lia; contradiction.
-    - pose proof (retryj_mono c cur). lia.
+    - pose proof (retryo_mono c cur) as Hc. destruct (retryo sh' k' pr' c cur), (retryo sh k pr c cur); cbn in Hc; try lia; contradiction.
     - destruct Hle as [->|[->|(v & -> & ->)]].
       + destruct pr'; try lia. apply (Ab v 0 0); lia.
       + destruct pr; try lia. apply (As v 0 0); auto.
@@ -359,8 +363,10 @@ Section Mono.
       destruct (casj sh' k' pr' c cur) as [j'|], (casj sh k pr c cur) as [j|]; cbn in Hc; try lia; try contradiction.
       + apply AC_mono; auto.
       + pose proof (AC_lb j H1 k). lia.
-    - pose proof (retryj_mono c cur). pose proof (LOADX_mono H1' H1 k' k HH Hk).
-      pose proof (AC_mono (retryj sh' k' pr' c cur) (retryj sh k pr c cur) H1' H1 k' k). lia.
+    - pose proof (retryo_mono c cur) as Hc. pose proof (LOADX_mono H1' H1 k' k HH Hk).
+      destruct (retryo sh' k' pr' c cur) as [j'|], (retryo sh k pr c cur) as [j|]; cbn in Hc; try lia; try contradiction.
+      + pose proof (AC_mono j' j H1' H1 k' k). lia.
+      + pose proof (AC_lb j H1 k). lia.
     - destruct Hle as [->|[->|(v & -> & ->)]].
       + destruct pr'; try lia. apply (Ab v H1' H1); lia.
       + destruct pr; try lia. apply (As v H1' H1); auto.
@@ -651,24 +657,27 @@ Lemma res_casretry cf sh k H pr c cur new l l' fs :
 Proof.
   intros HH He rest. unfold wbound.
   eapply Nat.le_trans; [eapply mu_enter_load; exact He|].
-  cbn [go is_bottom wnp wcost wpred casj]. unfold um at 1 2 3. fold (curv sh c).
-  set (j := retryj sh k pr c cur). assert (k + um sh c cur <= j) as Hj.
-  { unfold j, retryj. pose proof (um_le1 sh c cur). destruct (reads_store pr); lia. }
-  pose proof (LOADX_mono (headn sh + 1) (H + (j + 2)) k k ltac:(lia) ltac:(lia)).
-  assert (Hgo : forall pa, pred_le pa (if reads_store pr then if curv sh c =? cur then PVal cur else PFresh (curv sh c) else PNone) ->
-     forall Ha, Ha <= H + (j + 2) ->
-     go sh k Ha pa None rest <= go sh k (H + (j + 2))
-       (if reads_store pr then if curv sh c =? cur then PVal cur else PFresh (curv sh c) else PNone) None rest).
-  { intros pa Hpa Ha HHa. apply go_weaken; auto. }
-  destruct (curv sh c =? cur) eqn:E.
-  - cbn [wnp wcost wpred]. unfold um in Hj. fold (curv sh c) in Hj. rewrite E in Hj.
+  cbn [go is_bottom wnp wcost wpred casj]. unfold um, retryo. fold (curv sh c).
+  destruct (curv sh c =? cur) eqn:E; cbn [wnp wcost wpred]; rewrite ?E.
+  - set (j := if reads_store pr then k else k + 1). assert (k <= j) by (unfold j; destruct (reads_store pr); lia).
+    replace (match (if reads_store pr then Some k else Some (k + 1)) with Some j0 => j0 + 2 | None => 1 end) with (j + 2)
+      by (unfold j; destruct (reads_store pr); reflexivity).
+    replace (match (if reads_store pr then Some k else Some (k + 1)) with
+             | Some j0 => LOADX (H + (j + 2)) k + AC j0 (H + (j + 2)) k | None => LOADX (H + (j + 2)) k + 1 end)
+      with (LOADX (H + (j + 2)) k + AC j (H + (j + 2)) k) by (unfold j; destruct (reads_store pr); reflexivity).
+    pose proof (LOADX_mono (headn sh + 1) (H + (j + 2)) k k ltac:(lia) ltac:(lia)).
     pose proof (AC_mono (k + 0) j (headn sh + 1 + (k + 0 + 1)) (H + (j + 2)) k k ltac:(lia) ltac:(lia) ltac:(lia)).
-    pose proof (Hgo (PVal cur) ltac:(destruct (reads_store pr); [apply pred_le_refl|apply pred_le_none])
-                  (headn sh + 1 + (k + 0 + 1)) ltac:(lia)). lia.
-  - cbn [wnp wcost wpred]. rewrite ?E.
-    pose proof (AC_lb j (H + (j + 2)) k).
-    pose proof (Hgo (PFresh (curv sh c)) ltac:(destruct (reads_store pr); [apply pred_le_refl|apply pred_le_none])
-                  (headn sh + 1 + 0) ltac:(lia)). lia.
+    pose proof (go_weaken sh k (headn sh + 1 + (k + 0 + 1)) (H + (j + 2)) (PVal cur)
+                  (if reads_store pr then PVal cur else PNone) None rest ltac:(lia)
+                  ltac:(destruct (reads_store pr); [apply pred_le_refl|apply pred_le_none])). lia.
+  - destruct (reads_store pr) eqn:Er.
+    + pose proof (LOADX_mono (headn sh + 1) (H + 1) k k ltac:(lia) ltac:(lia)).
+      pose proof (go_weaken sh k (headn sh + 1 + 0) (H + 1) (PFresh (curv sh c)) (PFresh (curv sh c)) None rest
+                    ltac:(lia) (pred_le_refl _)). lia.
+    + pose proof (LOADX_mono (headn sh + 1) (H + (k + 1 + 2)) k k ltac:(lia) ltac:(lia)).
+      pose proof (AC_lb (k + 1) (H + (k + 1 + 2)) k).
+      pose proof (go_weaken sh k (headn sh + 1 + 0) (H + (k + 1 + 2)) (PFresh (curv sh c)) PNone None rest
+                    ltac:(lia) (pred_le_none _)). lia.
 Qed.
 
 Lemma att_mono sh c q H' H k : H' <= H -> att sh c q H' k <= att sh c q H k.
@@ -1022,7 +1031,7 @@ Ltac kp :=
 Ltac ar :=
   cbn [np_top tcost tpred tcz]; unfold rem0; cbn [rem];
   try change ((0 <=? 7)%N) with true; cbn beta iota;
-  unfold GETC, PAYC, LOADX, NODE, RD, RD2, bw, headn in *; try lia.
+  unfold bw, LOADX, GETC, PAYC, NODE, RD, RD2, headn in *; try lia.
 
 Ltac gk := apply goto_keeps; [kp | lia | ar | ar | cbn [tpred]; try pl | intros; cbn [tcz]; first [lia | apply phi2_none | apply Nat.le_refl | idtac]].
 Ltac rk := apply ret_keeps; [kp | lia | try exact I | ar | reflexivity].
@@ -1093,6 +1102,29 @@ Proof.
 Qed.
 
 (** *** Loads *)
+Lemma with_exit_gen sh l k p sh' k' r l2 nx :
+  with_exit l r = (l2, nx) ->
+  keeps sh sh' -> k' <= k ->
+  np_top sh k p = 0 -> 3 < tcost sh k (headn sh) p ->
+  conf r (tpred sh l p) -> pred_le (wpred sh' PKeep (WExit r)) (tpred sh l p) ->
+  tcz l p = None ->
+  step_ok sh l k p sh' l2 k' nx.
+Proof.
+  intros Hw K Hk Hn HC Hcf Hp Hz.
+  apply with_exit_shape in Hw as [->|[n ->]].
+  - apply ret_keeps; auto; rewrite ?Hn, ?Nat.add_0_r; lia.
+  - cbn [step_ok app].
+    apply (lt_ok sh l k p sh' k' _ 3 (headn sh') (wpred sh' PKeep (WExit r)) None).
+    + intros rest. cbn [mu np_top tcost tpred tcz go is_bottom wnp wcost].
+      rewrite !Nat.add_0_r. lia.
+    + exact Hk.
+    + rewrite (keeps_headn _ _ K). lia.
+    + rewrite Hn, Nat.add_0_r. exact HC.
+    + exact Hp.
+    + intros _. apply (k_store _ _ K).
+    + intros. rewrite (keeps_phi2 _ _ _ _ _ K), Hz. lia.
+Qed.
+
 Lemma with_exit_ok sh l k p sh' k' v d l2 nx :
   with_exit l (RGuard v d) = (l2, nx) ->
   keeps sh sh' -> k' <= k ->
@@ -1100,19 +1132,9 @@ Lemma with_exit_ok sh l k p sh' k' v d l2 nx :
   tpred sh l p = PFresh v -> tcz l p = None ->
   step_ok sh l k p sh' l2 k' nx.
 Proof.
-  intros Hw K Hk Hn HC Hp Hz.
-  apply with_exit_shape in Hw as [->|[n ->]].
-  - apply ret_keeps; auto; rewrite ?Hp, ?Hn, ?Nat.add_0_r; cbn; eauto; lia.
-  - cbn [step_ok app].
-    apply (lt_ok sh l k p sh' k' _ 3 (headn sh') (PFresh v) None).
-    + intros rest. cbn [mu np_top tcost tpred tcz go is_bottom wnp wcost wpred reads_store].
-      rewrite !Nat.add_0_r. lia.
-    + exact Hk.
-    + rewrite (keeps_headn _ _ K). lia.
-    + rewrite Hn, Nat.add_0_r. exact HC.
-    + rewrite Hp. apply pred_le_refl.
-    + intros _. apply (k_store _ _ K).
-    + intros. rewrite (keeps_phi2 _ _ _ _ _ K), Hz. lia.
+  intros Hw K Hk Hn HC Hp Hz. eapply with_exit_gen; eauto.
+  - rewrite Hp. cbn. eauto.
+  - rewrite Hp. cbn. apply pred_le_refl.
 Qed.
 
 Lemma fallback_entry_tcz cf l c l' p' :
@@ -1290,3 +1312,874 @@ Proof.
       cbn [tpred]. rewrite E. apply pred_le_none.
   - (* LH6a *)
     destruct (rc_inc sh cand) as [[s2 evs2]|] eqn:Hd; intros [= <- <- <- <-]; [gk|exact I].
+  - (* LH6b *)
+    destruct (mem sh (LSlot (own_node l) HSLOT) =? cand) eqn:E; cbn [orb].
+    + destruct (with_exit l _) as [l2 nx2] eqn:Hw. intros [= <- <- <- <-].
+      eapply with_exit_ok; eauto; try kp; try reflexivity; ar.
+    + destruct (cand =? 0).
+      * destruct (with_exit l _) as [l2 nx2] eqn:Hw. intros [= <- <- <- <-].
+        eapply with_exit_ok; eauto; try kp; try reflexivity; ar.
+      * intros [= <- <- <- <-]. gk.
+  - (* LH6c *)
+    destruct (rc_dec sh cand) as [[s2 evs2]|] eqn:Hd.
+    + destruct (with_exit l _) as [l2 nx2] eqn:Hw. intros [= <- <- <- <-].
+      eapply with_exit_ok; eauto; try kp; try reflexivity; ar.
+    + intros [= <- <- <- <-]. exact I.
+  - (* LH7 *) intros [= <- <- <- <-]. gk.
+  - (* LH8 *) intros [= <- <- <- <-]. gk.
+  - (* LH9 *)
+    destruct (mem sh (LSlot (own_node l) HSLOT) =? cand) eqn:E; cbn [orb].
+    + destruct (with_exit l _) as [l2 nx2] eqn:Hw. intros [= <- <- <- <-].
+      eapply with_exit_ok; eauto; try kp; try reflexivity; ar.
+    + destruct (cand =? 0).
+      * destruct (with_exit l _) as [l2 nx2] eqn:Hw. intros [= <- <- <- <-].
+        eapply with_exit_ok; eauto; try kp; try reflexivity; ar.
+      * intros [= <- <- <- <-]. gk.
+  - (* LH10 *)
+    destruct (rc_dec sh cand) as [[s2 evs2]|] eqn:Hd.
+    + destruct (with_exit l _) as [l2 nx2] eqn:Hw. intros [= <- <- <- <-].
+      eapply with_exit_ok; eauto; try kp; try reflexivity; ar.
+    + intros [= <- <- <- <-]. exact I.
+Qed.
+
+(** *** Small frames *)
+Lemma exec_small cf sh l p x k sh' l' evs nx :
+  match p with
+  | PDec _ _ | GD1 _ _ | GI1 _ _ | GI2 _ _ | NewAlloc | CloneInc _ => True
+  | _ => False
+  end ->
+  exec cf sh l p x = (sh', l', evs, nx) ->
+  step_ok sh l k p sh' l' k nx.
+Proof.
+  intros Hg. destruct p; try contradiction; clear Hg; unfold exec;
+    cbn [a_load a_cas a_store a_swap a_fadd a_fsub andb negb] in *.
+  - (* PDec *)
+    destruct (rc_dec sh a) as [[s2 evs2]|] eqn:Hd; intros [= <- <- <- <-]; [|exact I].
+    rk. cbn [tpred]. destruct r; cbn; eauto.
+  - (* GD1 *)
+    destruct (mem sh (slot_loc sl) =? p); intros [= <- <- <- <-]; [rk|].
+    unfold dec_then. destruct (p =? 0); [rk|gk].
+  - (* GI1 *)
+    destruct (rc_inc sh p) as [[s2 evs2]|] eqn:Hd; intros [= <- <- <- <-]; [gk|exact I].
+  - (* GI2 *)
+    destruct (mem sh (slot_loc sl) =? p); intros [= <- <- <- <-]; [rk|].
+    unfold dec_then. destruct (p =? 0); [rk|gk].
+  - (* NewAlloc *)
+    destruct (rc_alloc sh x) as [[s2 evs2]|] eqn:Hd; intros [= <- <- <- <-]; [rk|exact I].
+  - (* CloneInc *)
+    destruct (rc_inc sh a) as [[s2 evs2]|] eqn:Hd; intros [= <- <- <- <-]; [rk|exact I].
+Qed.
+
+(** *** pay_all *)
+Lemma dispatch_ok cf sh l k p sh' k' c old w ctl :
+  keeps sh sh' -> k' <= k ->
+  np_top sh k p = 0 -> tpred sh l p = PNone -> tcz l p = None ->
+  bw w < tcost sh k (headn sh) p ->
+  (is_genb ctl = true -> bw w + RD + phi2 sh None w ctl * RD2 < tcost sh k (headn sh) p) ->
+  step_ok sh l k p sh' l k' (help_dispatch cf l c old w ctl).
+Proof.
+  intros K Hk Hn Hp Hz H1 H2.
+  assert (HPS : step_ok sh l k p sh' l k' (NGoto (PS c old w 0))).
+  { apply goto_keeps; auto; rewrite ?Hn, ?Hp, ?Hz; try apply pred_le_refl.
+    - cbn. lia.
+    - rewrite Nat.add_0_r. cbn [np_top tcost]. rewrite Nat.add_0_r. unfold bw, NODE in *. change (n2 0%N) with 0. lia.
+    - intros. apply Nat.le_refl. }
+  unfold help_dispatch. destruct (_ =? IDLE); [destruct (ctl =? IDLE); [exact HPS|exact I]|].
+  destruct (_ =? REPLACEMENT_TAG); [exact HPS|].
+  destruct (N.land ctl TAG_MASK =? GEN_TAG) eqn:Eg; [|exact I].
+  destruct (_ && _); [exact I|].
+  apply goto_keeps; auto; rewrite ?Hn, ?Hp, ?Hz; try apply pred_le_refl.
+  - cbn. lia.
+  - rewrite Nat.add_0_r. cbn [np_top tcost]. rewrite Nat.add_0_r, (keeps_phi2 _ _ _ _ _ K). apply H2. exact Eg.
+  - intros. apply Nat.le_refl.
+Qed.
+
+Lemma after_slot_ok sh l k p sh' k' c old w j :
+  keeps sh sh' -> k' <= k -> (j <= 8)%N ->
+  np_top sh k p = 0 -> tpred sh l p = PNone -> tcz l p = None ->
+  NODE * n2 w + 3 + 2 * (9 - n2 j) < tcost sh k (headn sh) p ->
+  step_ok sh l k p sh' l k' (after_slot c old w j).
+Proof.
+  intros K Hk Hj Hn Hp Hz H1. unfold after_slot. destruct (j =? HSLOT) eqn:E.
+  - apply N.eqb_eq in E. subst j. apply goto_keeps; auto; rewrite ?Hn, ?Hp, ?Hz; try apply pred_le_refl.
+    + cbn. lia.
+    + rewrite Nat.add_0_r. cbn [np_top tcost]. unfold HSLOT, NODE in *. change (n2 8%N) with 8 in H1. rewrite ?Nat.add_0_r. lia.
+    + intros. apply Nat.le_refl.
+  - apply N.eqb_neq in E. unfold HSLOT in E.
+    apply goto_keeps; auto; rewrite ?Hn, ?Hp, ?Hz; try apply pred_le_refl.
+    + cbn. lia.
+    + rewrite Nat.add_0_r. cbn [np_top tcost]. unfold NODE in *. rewrite ?Nat.add_0_r. lia.
+    + intros. apply Nat.le_refl.
+Qed.
+
+Lemma phi2_match sh w : phi2 sh None w (mem sh (LCtrl w)) = 0.
+Proof. unfold phi2. rewrite N.eqb_refl. reflexivity. Qed.
+
+Lemma exec_pay_1 cf sh l p x k sh' l' evs nx :
+  match p with
+  | P1 _ _ | P2 _ _ | P3 _ _ _ | PE0d _ _ _ | PE0e _ _ _ | PE1 _ _ _ | P5 _ _ _ | P6 _ _ => True
+  | _ => False
+  end ->
+  exec cf sh l p x = (sh', l', evs, nx) ->
+  step_ok sh l k p sh' l' k nx.
+Proof.
+  intros Hg. destruct p; try contradiction; clear Hg; unfold exec;
+    cbn [a_load a_cas a_store a_swap a_fadd a_fsub andb negb] in *.
+  - (* P1 *)
+    destruct (rc_inc sh old) as [[s2 evs2]|] eqn:Hd; intros [= <- <- <- <-]; [gk|exact I].
+  - (* P2 *)
+    destruct (mem sh LHead =? 0) eqn:E.
+    + destruct (old =? 0).
+      * destruct (with_exit l RUnit) as [l2 nx2] eqn:Hw. intros [= <- <- <- <-].
+        eapply with_exit_gen; eauto; try kp; try reflexivity; try exact I; ar. apply pred_le_refl.
+      * intros [= <- <- <- <-]. gk.
+    + intros [= <- <- <- <-]. apply N.eqb_neq in E. gk.
+  - (* P3 *)
+    destruct (tl_node l); [destruct (cf_debug cf)|]; intros [= <- <- <- <-]; try exact I; gk.
+  - (* PE0d *)
+    destruct (_ =? NODE_USED); intros [= <- <- <- <-]; try exact I; gk.
+  - (* PE0e *)
+    destruct (_ =? IDLE); intros [= <- <- <- <-]; try exact I; gk.
+  - (* PE1 *)
+    intros [= <- <- <- <-]. apply dispatch_ok; try kp; try reflexivity; ar.
+    intros _. rewrite phi2_match. lia.
+  - (* P5 *)
+    destruct (w =? 0) eqn:E.
+    + destruct (old =? 0).
+      * destruct (with_exit l RUnit) as [l2 nx2] eqn:Hw. intros [= <- <- <- <-].
+        eapply with_exit_gen; eauto; try kp; try reflexivity; try exact I; ar. apply pred_le_refl.
+      * intros [= <- <- <- <-]. gk.
+    + intros [= <- <- <- <-]. apply N.eqb_neq in E. gk.
+  - (* P6 *)
+    destruct (rc_dec sh old) as [[s2 evs2]|] eqn:Hd.
+    + destruct (with_exit l RUnit) as [l2 nx2] eqn:Hw. intros [= <- <- <- <-].
+      eapply with_exit_gen; eauto; try kp; try reflexivity; try exact I; ar. apply pred_le_refl.
+    + intros [= <- <- <- <-]. exact I.
+Qed.
+
+Lemma mu_enter_load_some cf sh l k c l' fs tail :
+  tl_node l <> None ->
+  enter_load cf l c = inl (l', fs) ->
+  mu sh l' k (fs ++ tail) <= 28 + go sh k (headn sh) (PFresh (curv sh c)) None tail.
+Proof.
+  unfold enter_load. destruct (tl_node l) eqn:Hn; [intros _|congruence].
+  unfold load_body. destruct (cf_use_fast cf).
+  - intros [= <- <-]. cbn [app]. apply mu_top_le; cbn; try lia. apply pred_le_refl.
+  - destruct (fallback_entry cf _ c) as [l2 nx] eqn:Hf. destruct nx; try discriminate.
+    intros [= <- <-]. cbn [app].
+    destruct (fallback_entry_pred cf sh _ c _ _ Hf) as (Hp & _ & Hnp & Hc).
+    apply mu_top_le.
+    + rewrite Hnp. lia.
+    + pose proof (Hc k (headn sh + np_top sh k p)). lia.
+    + rewrite Hp. apply pred_le_refl.
+Qed.
+
+Lemma genb_repl mine : is_genb (N.lor mine REPLACEMENT_TAG) = false.
+Proof.
+  unfold is_genb. apply N.eqb_neq. intros H.
+  apply (f_equal (fun v => N.testbit v 0)) in H.
+  rewrite N.land_spec, N.lor_spec in H. cbn in H. rewrite Bool.orb_true_r in H. discriminate.
+Qed.
+
+Lemma phi2_one sh w ctl :
+  (mem sh (LCtrl w) =? ctl) = false -> is_genb (mem sh (LCtrl w)) = true -> phi2 sh None w ctl = 1.
+Proof. intros H1 H2. unfold phi2. rewrite H1, H2. reflexivity. Qed.
+
+Lemma exec_pay_2 cf sh l p x k sh' l' evs nx :
+  match p with
+  | PE2 _ _ _ _ | PE3 _ _ _ _ | PE4 _ _ _ _ _ | PE5 _ _ _ _ _ _ | PE6 _ _ _ _ _ _ _ => True
+  | _ => False
+  end ->
+  top_hyp l p ->
+  exec cf sh l p x = (sh', l', evs, nx) ->
+  step_ok sh l k p sh' l' k nx.
+Proof.
+  intros Hg Ht. destruct p; try contradiction; clear Hg; unfold exec;
+    cbn [a_load a_cas a_store a_swap a_fadd a_fsub andb negb] in *.
+  - (* PE2 *)
+    cbn [top_hyp] in Ht. destruct (_ =? store_val c).
+    + destruct (enter_load cf l c) as [[l0 fs]|ps] eqn:He; intros [= <- <- <- <-]; [|exact I].
+      cbn [step_ok]. intros rest. rewrite <- app_assoc. cbn [app]. revert rest.
+      apply (lt_ok sh l k _ sh k _ (28 + 3 + (bw w + 5 + phi2 sh None w ctl * RD2)) (headn sh) PNone None);
+        try lia; try (intros; apply Nat.le_refl).
+      * intros rest.
+        eapply Nat.le_trans; [eapply mu_enter_load_some; eauto|].
+        cbn [go is_bottom wnp wcost wpred]. rewrite !Nat.add_0_r. lia.
+      * ar.
+      * apply pred_le_refl.
+    + intros [= <- <- <- <-]. gk.
+  - (* PE3 *)
+    destruct (mem sh (LCtrl w) =? ctl) eqn:E; intros [= <- <- <- <-]; [gk|].
+    apply dispatch_ok; try kp; try reflexivity; ar.
+    intros Hgen. rewrite phi2_match, (phi2_one sh w ctl E Hgen). lia.
+  - (* PE4 *) intros [= <- <- <- <-]. gk.
+  - (* PE5 *) intros [= <- <- <- <-]. gk.
+  - (* PE6 *)
+    destruct (_ =? 0); intros [= <- <- <- <-]; [|exact I]. gk.
+    rewrite (keeps_phi2 sh (m_set sh (LEnv (env_of mine)) r) None w ctl) by kp. lia.
+Qed.
+
+Lemma phi2_set_nongen sh n v cz w ctl :
+  is_genb v = false -> phi2 (m_set sh (LCtrl n) v) cz w ctl <= phi2 sh cz w ctl.
+Proof.
+  intros Hv. unfold phi2. destruct (decide (w = n)) as [->|Hne].
+  - rewrite mem_set_same, Hv. cbn [negb]. rewrite Bool.orb_true_r. lia.
+  - cbn. rewrite upd_other by congruence. lia.
+Qed.
+
+Lemma exec_pay_3 cf sh l p x k sh' l' evs nx :
+  match p with
+  | PE7 _ _ _ _ _ _ _ | PE8 _ _ _ _ | PE9 _ _ _ _ _ | PS _ _ _ _ | PSi _ _ _ _ => True
+  | _ => False
+  end ->
+  top_hyp l p ->
+  exec cf sh l p x = (sh', l', evs, nx) ->
+  step_ok sh l k p sh' l' k nx.
+Proof.
+  intros Hg Ht. destruct p; try contradiction; clear Hg; unfold exec;
+    cbn [a_load a_cas a_store a_swap a_fadd a_fsub andb negb] in *.
+  - (* PE7 *)
+    destruct (mem sh (LCtrl w) =? ctl) eqn:E; intros [= <- <- <- <-].
+    + apply goto_ok; try lia.
+      * rewrite headn_set_ctl. ar.
+      * rewrite headn_set_ctl. ar.
+      * apply pred_le_refl.
+      * cbn. discriminate.
+      * intros w0 ctl0. cbn [tcz]. apply phi2_set_nongen. apply genb_repl.
+    + destruct (r =? 0).
+      * apply dispatch_ok; try kp; try reflexivity; ar.
+        intros Hgen. rewrite phi2_match, (phi2_one sh w ctl E Hgen). lia.
+      * gk. rewrite phi2_match. destruct (is_genb (mem sh (LCtrl w))) eqn:Hgen; [|lia].
+        rewrite (phi2_one sh w ctl E Hgen). lia.
+  - (* PE8 *) intros [= <- <- <- <-]. gk.
+  - (* PE9 *)
+    destruct (rc_dec sh r) as [[s2 evs2]|] eqn:Hd; intros [= <- <- <- <-]; [|exact I].
+    apply dispatch_ok; try kp; try reflexivity; ar. intros ->. lia.
+  - (* PS *)
+    cbn [top_hyp] in Ht.
+    destruct (mem sh (LSlot w j) =? old) eqn:E; cbn [andb]; [destruct (old =? 0); cbn [negb]|];
+      intros [= <- <- <- <-]; try gk; apply after_slot_ok; auto; try reflexivity; try kp; ar.
+  - (* PSi *)
+    cbn [top_hyp] in Ht.
+    destruct (rc_inc sh old) as [[s2 evs2]|] eqn:Hd; intros [= <- <- <- <-]; [|exact I].
+    apply after_slot_ok; auto; try reflexivity; try kp; ar.
+Qed.
+
+(** *** swap, cache reload *)
+Lemma phi2_set_store sh c v cz w ctl : phi2 (m_set sh (LStore c) v) cz w ctl = phi2 sh cz w ctl.
+Proof. unfold phi2. cbn. rewrite upd_other by discriminate. reflexivity. Qed.
+Lemma headn_set_store sh c v : headn (m_set sh (LStore c) v) = headn sh.
+Proof. unfold headn. cbn. rewrite upd_other by discriminate. reflexivity. Qed.
+
+Lemma exec_S1 cf sh l c new x k sh' l' evs nx :
+  exec cf sh l (S1 c new) x = (sh', l', evs, nx) ->
+  step_ok sh l k (S1 c new) sh' l' k nx.
+Proof.
+  unfold exec. cbn [a_swap]. destruct (enter_pay l c (mem sh (LStore c))) as [l0 fs] eqn:He.
+  intros [= <- <- <- <-]. cbn [step_ok].
+  eapply lt_ok with (sh' := m_set sh (LStore c) new) (k' := k) (C := GETC (headn sh + 1) k + PAYC (headn sh + 1)) (H1 := headn sh + 1) (pr1 := PNone) (cz1 := None);
+    try lia.
+  - intros rest. eapply Nat.le_trans; [eapply mu_enter_pay; exact He|].
+    rewrite headn_set_store. cbn [go is_bottom wnp wcost wpred]. rewrite !Nat.add_0_r. lia.
+  - cbn [np_top]. lia.
+  - cbn [np_top tcost]. lia.
+  - apply pred_le_refl.
+  - cbn. discriminate.
+  - intros. cbn [tcz]. rewrite phi2_set_store. lia.
+Qed.
+
+Lemma exec_Q1 cf sh l c a k0 x k sh' l' evs nx :
+  exec cf sh l (Q1 c a k0) x = (sh', l', evs, nx) ->
+  step_ok sh l k (Q1 c a k0) sh' l' k nx.
+Proof.
+  unfold exec. cbn [a_load]. destruct (_ =? a).
+  - intros [= <- <- <- <-]. apply ret_keeps; try kp; try lia; try exact I; try reflexivity. ar.
+  - destruct (enter_load cf l c) as [[l0 fs]|ps] eqn:He; intros [= <- <- <- <-]; [|exact I].
+    cbn [step_ok]. intros rest. rewrite <- app_assoc. cbn [app]. revert rest.
+    eapply lt_ok with (sh' := sh) (k' := k) (C := LOADX (headn sh + 1) k + 4) (H1 := headn sh + 1) (pr1 := PNone) (cz1 := None); try lia.
+    + intros rest. eapply Nat.le_trans; [eapply mu_enter_load; exact He|].
+      cbn [go is_bottom wnp wcost wpred]. rewrite !Nat.add_0_r. lia.
+    + cbn [np_top]. lia.
+    + cbn [np_top tcost]. lia.
+    + apply pred_le_refl.
+    + intros. cbn [tcz]. lia.
+Qed.
+
+(** *** compare_and_swap: the exchange *)
+Lemma AC_step j' j H' H k' k :
+  j' + 1 <= j -> H' <= H -> k' <= k -> LOADX H' k' + 4 + AC j' H' k' <= AC j H k.
+Proof.
+  intros Hj HH Hk. pose proof (AC_mono (S j') j H H k k ltac:(lia) ltac:(lia) ltac:(lia)).
+  rewrite AC_S in H0. unfold CR in H0.
+  pose proof (LOADX_mono H' H k' k HH Hk). pose proof (AC_mono j' j' H' H k' k ltac:(lia) HH Hk). lia.
+Qed.
+
+Lemma K1_fail cf sh l k k' c cur new v d l' nx :
+  k' <= k -> (um sh c cur = 1 \/ k' + 1 <= k) ->
+  (match guard_drop_frames v d with
+   | [] => match enter_load cf l c with
+           | inl (l0, frames) => (l0, NPush frames (WCasLoad c cur new))
+           | inr ps => (l, NPanic ps)
+           end
+   | _ :: _ => (l, NPush (guard_drop_frames v d) (WCasRetry c cur new))
+   end) = (l', nx) ->
+  step_ok sh l k (K1 c cur new v d) sh l' k' nx.
+Proof.
+  intros Hk Hb Hx.
+  set (J := k + um sh c cur). set (Hm := headn sh + (J + 1)).
+  assert (HT : tcost sh k (headn sh + np_top sh k (K1 c cur new v d)) (K1 c cur new v d) = AC J Hm k) by reflexivity.
+  assert (HN : headn sh + np_top sh k (K1 c cur new v d) = Hm) by reflexivity.
+  destruct (curv sh c =? cur) eqn:Ec.
+  - (* matched: the failure was spurious *)
+    assert (Hu : um sh c cur = 0) by (unfold um; fold (curv sh c); rewrite Ec; reflexivity).
+    assert (Hk1 : k' + 1 <= k) by (destruct Hb; lia).
+    assert (Hp : pred_le (PVal cur) (tpred sh l (K1 c cur new v d))).
+    { cbn [tpred]. rewrite Ec. destruct (v =? cur); [apply pred_le_refl|apply pred_le_none]. }
+    pose proof (AC_step k' J (headn sh + k' + 2) Hm k' k ltac:(unfold J; lia) ltac:(unfold Hm, J; lia) Hk) as HA.
+    pose proof (LOADX_mono (headn sh + 1) (headn sh + k' + 2) k' k' ltac:(lia) ltac:(lia)) as HL.
+    destruct (guard_drop_frames v d) as [|f fs] eqn:Hg.
+    + destruct (enter_load cf l c) as [[l0 frames]|ps] eqn:He; injection Hx as <- <-; [|exact I].
+      cbn [step_ok].
+      eapply lt_ok with (sh' := sh) (k' := k') (C := LOADX (headn sh + 1) k' + AC k' (headn sh + k' + 2) k')
+                        (H1 := headn sh + k' + 2) (pr1 := PVal cur) (cz1 := None); auto; try lia.
+      * intros rest. eapply Nat.le_trans; [eapply mu_enter_load; exact He|].
+        cbn [go is_bottom wnp wcost wpred casj]. rewrite Ec, Hu. cbn [wnp wcost wpred]. rewrite ?Ec.
+        replace (headn sh + 1 + (k' + 0 + 1)) with (headn sh + k' + 2) by lia.
+        rewrite Nat.add_0_r. lia.
+    + injection Hx as <- <-. cbn [step_ok].
+      destruct (mu_gdrop sh l k' v d f fs (WCasRetry c cur new :: nil) Hg) as [-> _].
+      eapply lt_ok with (sh' := sh) (k' := k') (C := 2 + LOADX (headn sh + k' + 2) k' + AC k' (headn sh + k' + 2) k')
+                        (H1 := headn sh + k' + 2) (pr1 := PVal cur) (cz1 := None); auto; try lia.
+      * intros rest. destruct (mu_gdrop sh l k' v d f [] (WCasRetry c cur new :: rest) Hg) as [_ Hm2].
+        cbn [app]. eapply Nat.le_trans; [exact Hm2|].
+        cbn [go is_bottom wnp wcost wpred reads_store]. unfold retryo. cbn [reads_store]. rewrite Ec.
+        replace (headn sh + (k' + 2)) with (headn sh + k' + 2) by lia. lia.
+  - (* not matched: a real failure; the next load sees a different value *)
+    assert (Hu : um sh c cur = 1) by (unfold um; fold (curv sh c); rewrite Ec; reflexivity).
+    assert (Hp : pred_le (PFresh (curv sh c)) (tpred sh l (K1 c cur new v d))).
+    { cbn [tpred]. rewrite Ec. apply pred_le_refl. }
+    pose proof (AC_step 0 J (headn sh + 1) Hm k' k ltac:(unfold J; lia) ltac:(unfold Hm, J; lia) Hk) as HA.
+    pose proof (AC_lb 0 (headn sh + 1) k') as HB.
+    destruct (guard_drop_frames v d) as [|f fs] eqn:Hg.
+    + destruct (enter_load cf l c) as [[l0 frames]|ps] eqn:He; injection Hx as <- <-; [|exact I].
+      cbn [step_ok].
+      eapply lt_ok with (sh' := sh) (k' := k') (C := LOADX (headn sh + 1) k' + 1)
+                        (H1 := headn sh + 1) (pr1 := PFresh (curv sh c)) (cz1 := None); auto; try lia.
+      intros rest. eapply Nat.le_trans; [eapply mu_enter_load; exact He|].
+      cbn [go is_bottom wnp wcost wpred casj]. rewrite Ec. cbn [wnp wcost wpred]. rewrite ?Ec.
+      rewrite !Nat.add_0_r. lia.
+    + injection Hx as <- <-. cbn [step_ok].
+      destruct (mu_gdrop sh l k' v d f fs (WCasRetry c cur new :: nil) Hg) as [-> _].
+      eapply lt_ok with (sh' := sh) (k' := k') (C := 2 + LOADX (headn sh + 1) k' + 1)
+                        (H1 := headn sh + 1) (pr1 := PFresh (curv sh c)) (cz1 := None); auto; try lia.
+      intros rest. destruct (mu_gdrop sh l k' v d f [] (WCasRetry c cur new :: rest) Hg) as [_ Hm2].
+      cbn [app]. eapply Nat.le_trans; [exact Hm2|].
+      cbn [go is_bottom wnp wcost wpred reads_store]. unfold retryo. cbn [reads_store]. rewrite Ec. lia.
+Qed.
+
+Lemma exec_K1 cf sh l c cur new v d x k sh' l' evs nx :
+  spur (K1 c cur new v d) x <= k ->
+  exec cf sh l (K1 c cur new v d) x = (sh', l', evs, nx) ->
+  step_ok sh l k (K1 c cur new v d) sh' l' (k - spur (K1 c cur new v d) x) nx.
+Proof.
+  intros Hs. unfold exec. cbn [a_cas andb negb spur] in *.
+  assert (Hfail : forall k', k' <= k -> (um sh c cur = 1 \/ k' + 1 <= k) ->
+            match guard_drop_frames v d with
+            | [] => match enter_load cf l c with
+                    | inl (l'0, frames) => (sh, l'0, [EvAcc (LStore c) OCasWeak (fst o_cas_exchange) (snd o_cas_exchange)
+                                                      (mem sh (LStore c)) (mem sh (LStore c)) false], NPush frames (WCasLoad c cur new))
+                    | inr ps => (sh, l, [EvAcc (LStore c) OCasWeak (fst o_cas_exchange) (snd o_cas_exchange)
+                                                      (mem sh (LStore c)) (mem sh (LStore c)) false], NPanic ps)
+                    end
+            | _ :: _ => (sh, l, [EvAcc (LStore c) OCasWeak (fst o_cas_exchange) (snd o_cas_exchange)
+                                                      (mem sh (LStore c)) (mem sh (LStore c)) false],
+                         NPush (guard_drop_frames v d) (WCasRetry c cur new))
+            end = (sh', l', evs, nx) ->
+            step_ok sh l k (K1 c cur new v d) sh' l' k' nx).
+  { intros k' Hk Hb Hx.
+    assert (sh' = sh) as ->.
+    { revert Hx. destruct (guard_drop_frames v d); [destruct (enter_load cf l c) as [[? ?]|?]|];
+        intros Hx; inversion Hx; reflexivity. }
+    eapply (K1_fail cf); eauto.
+    revert Hx. destruct (guard_drop_frames v d); [destruct (enter_load cf l c) as [[? ?]|?]|];
+      intros Hx; inversion Hx; reflexivity. }
+  destruct (mem sh (LStore c) =? cur) eqn:Ec; destruct (x =? 1) eqn:Ex; cbn [andb negb].
+  - intros Hx. apply Hfail; [lia|right; lia|]. rewrite <- Hx.
+    destruct (guard_drop_frames v d); reflexivity.
+  - (* success *)
+    rewrite Nat.sub_0_r. destruct (enter_pay l c v) as [l0 fs] eqn:He. intros [= <- <- <- <-].
+    cbn [step_ok].
+    assert (Hu : um sh c cur = 0) by (unfold um; rewrite Ec; reflexivity).
+    pose proof (AC_lb (k + um sh c cur) (headn sh + (k + um sh c cur + 1)) k) as HA.
+    pose proof (GETC_mono (headn sh + 1) (headn sh + (k + um sh c cur + 1)) k k ltac:(lia) ltac:(lia)).
+    pose proof (PAYC_mono (headn sh + 1) (headn sh + (k + um sh c cur + 1)) ltac:(lia)).
+    eapply lt_ok with (sh' := m_set sh (LStore c) new) (k' := k)
+                      (C := GETC (headn sh + 1) k + PAYC (headn sh + 1) + 1)
+                      (H1 := headn sh + 1) (pr1 := PVal v) (cz1 := None); try lia.
+    + intros rest. eapply Nat.le_trans; [eapply mu_enter_pay; exact He|].
+      rewrite headn_set_store. cbn [go is_bottom wnp wcost wpred]. rewrite !Nat.add_0_r. lia.
+    + cbn [np_top]. lia.
+    + cbn [np_top tcost]. unfold KS in HA. lia.
+    + cbn [tpred]. fold (curv sh c) in Ec. rewrite Ec. destruct (v =? cur) eqn:Ev; [|apply pred_le_none].
+      apply N.eqb_eq in Ev. subst v. apply pred_le_refl.
+    + cbn [tpred]. fold (curv sh c) in Ec. rewrite Ec. destruct (v =? cur); cbn; discriminate.
+    + intros. cbn [tcz]. rewrite phi2_set_store. lia.
+  - intros Hx. apply Hfail; [lia|left; unfold um; rewrite Ec; reflexivity|]. rewrite <- Hx.
+    destruct (guard_drop_frames v d); reflexivity.
+  - rewrite Nat.sub_0_r. intros Hx. apply Hfail; [lia|left; unfold um; rewrite Ec; reflexivity|]. rewrite <- Hx.
+    destruct (guard_drop_frames v d); reflexivity.
+Qed.
+
+(** *** rcu: the closure's allocation / clone *)
+Lemma keeps_att sh sh' c q H k : keeps sh sh' ->
+  att sh' c q H k = att sh c q H k /\ att_np sh' c q k = att_np sh c q k.
+Proof.
+  intros K. unfold att, att_np, um. fold (curv sh c) (curv sh' c). rewrite (k_store _ _ K). auto.
+Qed.
+
+Lemma rcu_push_ok cf sh l k c m q d x sh' l0 fs p :
+  keeps sh sh' ->
+  np_top sh k p = att_np sh c q k -> tcost sh k (headn sh + att_np sh c q k) p = att sh c q (headn sh + att_np sh c q k) k ->
+  tpred sh l p = PNone -> tcz l p = None ->
+  enter_load cf l c = inl (l0, fs) ->
+  step_ok sh l k p sh' l0 k (NPush (fs ++ [WCasLoad c q x]) (WRcuCas c m q d)).
+Proof.
+  intros K Hn HT Hp Hz He. cbn [step_ok].
+  destruct (keeps_att sh sh' c q (headn sh + att_np sh c q k) k K) as [Ha Hnp].
+  pose proof (att_lb sh c q (headn sh + att_np sh c q k) k).
+  eapply lt_ok with (sh' := sh') (k' := k) (C := att sh c q (headn sh + att_np sh c q k) k - 1)
+                    (H1 := headn sh + att_np sh c q k) (pr1 := PNone) (cz1 := None); try lia.
+  - intros rest. pose proof (mu_att_push cf sh' l k c m q d x l0 fs rest He) as Hm.
+    unfold att_bound in Hm. rewrite Hnp, (keeps_headn _ _ K), Ha in Hm. lia.
+  - rewrite Hn, HT. lia.
+  - rewrite Hp. apply pred_le_refl.
+  - rewrite Hp. cbn. discriminate.
+  - intros. rewrite Hz, (keeps_phi2 _ _ _ _ _ K). lia.
+Qed.
+
+Lemma exec_RAlloc cf sh l c m q d x k sh' l' evs nx :
+  exec cf sh l (RAlloc c m q d) x = (sh', l', evs, nx) ->
+  step_ok sh l k (RAlloc c m q d) sh' l' k nx.
+Proof.
+  unfold exec. destruct (rc_alloc sh x) as [[s2 evs2]|] eqn:Hd; [|intros [= <- <- <- <-]; exact I].
+  destruct (enter_load cf l c) as [[l0 fs]|ps] eqn:He; intros [= <- <- <- <-]; [|exact I].
+  eapply rcu_push_ok; eauto; try reflexivity. kp.
+Qed.
+
+Lemma exec_RInc cf sh l c m q d x k sh' l' evs nx :
+  exec cf sh l (RInc c m q d) x = (sh', l', evs, nx) ->
+  step_ok sh l k (RInc c m q d) sh' l' k nx.
+Proof.
+  unfold exec. destruct (rc_inc sh q) as [[s2 evs2]|] eqn:Hd; [|intros [= <- <- <- <-]; exact I].
+  destruct (enter_load cf l c) as [[l0 fs]|ps] eqn:He; intros [= <- <- <- <-]; [|exact I].
+  eapply rcu_push_ok; eauto; try reflexivity. kp.
+Qed.
+
+(** ** Every step of the active frame decreases the measure *)
+Theorem exec_dec cf sh l p x k sh' l' evs nx :
+  top_hyp l p -> spur p x <= k ->
+  exec cf sh l p x = (sh', l', evs, nx) ->
+  step_ok sh l k p sh' l' (k - spur p x) nx.
+Proof.
+  intros Ht Hs He.
+  destruct p;
+    try (eapply exec_getcool; [reflexivity|exact Hs|exact He]);
+    try (cbn [spur]; rewrite Nat.sub_0_r);
+    try (eapply exec_load_A; [exact I|exact Ht|exact He]);
+    try (eapply exec_load_H1; [exact I|exact He]);
+    try (eapply exec_load_H2; [exact I|exact He]);
+    try (eapply exec_small; [exact I|exact He]);
+    try (eapply exec_pay_1; [exact I|exact He]);
+    try (eapply exec_pay_2; [exact I|exact Ht|exact He]);
+    try (eapply exec_pay_3; [exact I|exact Ht|exact He]);
+    try (eapply exec_S1; exact He);
+    try (eapply exec_Q1; exact He);
+    try (eapply exec_RAlloc; exact He);
+    try (eapply exec_RInc; exact He);
+    try (eapply exec_K1; [exact Hs|exact He]);
+    try (unfold exec in He; injection He as <- <- <- <-; exact I).
+Qed.
+
+(** ** The thread *)
+Lemma step_dec cf s t x k p rest :
+  t_status (thr s t) = Running -> t_stack (thr s t) = p :: rest ->
+  top_hyp (t_loc (thr s t)) p -> spur p x <= k ->
+  let s' := fst (step cf s t x) in
+  t_status (thr s' t) <> Running \/ t_stack (thr s' t) = [] \/
+  mu (sh s') (t_loc (thr s' t)) (k - spur p x) (t_stack (thr s' t))
+  < mu (sh s) (t_loc (thr s t)) k (p :: rest).
+Proof.
+  intros Hrun Hstk Ht Hs. unfold step. rewrite Hrun, Hstk.
+  destruct (exec cf (sh s) (t_loc (thr s t)) p x) as [[[s_sh l] evs] nx] eqn:He.
+  pose proof (exec_dec cf _ _ _ _ k _ _ _ _ Ht Hs He) as Hok.
+  destruct nx as [p'|fs w|v|ps|f]; cbn [step_ok] in Hok; cbn [finish fst].
+  - right; right. (thr_simpl; cbn [t_stack t_loc t_status]). apply Hok.
+  - right; right. (thr_simpl; cbn [t_stack t_loc t_status]). apply Hok.
+  - destruct Hok as (Hcf & HH & Hgo).
+    pose proof (unwind_le cf s_sh (k - spur p x) rest l _ _ v HH Hcf) as Hu.
+    destruct (unwind cf l rest v) as [l2 stk|l2 dst v'|l2|l2 ps|l2 f]; cbn [fst]; (thr_simpl; cbn [t_stack t_loc t_status]).
+    + right; right. specialize (Hgo rest). lia.
+    + right; left. reflexivity.
+    + left. discriminate.
+    + left. discriminate.
+    + left. discriminate.
+  - left. (thr_simpl; cbn [t_stack t_loc t_status]). discriminate.
+  - left. (thr_simpl; cbn [t_stack t_loc t_status]). discriminate.
+Qed.
+
+From ASModel Require Import Hist Inv InvTl InvProto InvStep.
+
+Lemma WF2_top_hyp s t p rest :
+  WF2 s -> t_status (thr s t) = Running -> t_stack (thr s t) = p :: rest ->
+  top_hyp (t_loc (thr s t)) p.
+Proof.
+  intros W Hrun Hstk. pose proof (w_thr s W t Hrun) as [Htl Hf]. rewrite Hstk in Htl, Hf.
+  apply Forall_inv in Hf. destruct Htl as (_ & _ & _ & Hn & _).
+  destruct p; try exact I; cbn [top_hyp].
+  - cbn in Hf. exact Hf.
+  - apply Hn. cbn [depth_of is_bottom_frame in_with]. lia.
+  - cbn in Hf. apply Hf.
+  - cbn in Hf. apply Hf.
+Qed.
+
+(** Thread [t] is in the middle of a command. *)
+Definition busy (s : state) (t : N) : bool :=
+  match t_status (thr s t), t_stack (thr s t) with
+  | Running, _ :: _ => true
+  | _, _ => false
+  end.
+
+Definition spur_of (s : state) (t x : N) : nat :=
+  match t_stack (thr s t) with p :: _ => spur p x | [] => 0 end.
+
+(** Own steps of [t] until its command is complete (or the thread stopped), when only [t]
+    runs, with the scheduler's choices [xs]; and the spurious failures among them. *)
+Fixpoint solo_steps (cf : config) (t : N) (xs : list N) (s : state) : nat :=
+  match xs with
+  | [] => 0
+  | x :: r => if busy s t then S (solo_steps cf t r (fst (step cf s t x))) else 0
+  end.
+
+Fixpoint spurs (cf : config) (t : N) (xs : list N) (s : state) : nat :=
+  match xs with
+  | [] => 0
+  | x :: r => if busy s t then spur_of s t x + spurs cf t r (fst (step cf s t x)) else 0
+  end.
+
+Definition mu_of (s : state) (t : N) (k : nat) : nat :=
+  mu (sh s) (t_loc (thr s t)) k (t_stack (thr s t)).
+
+Lemma tcost_pos sh l k H p :
+  is_waiting p = false -> top_hyp l p -> 1 <= tcost sh k H p.
+Proof.
+  intros Hw Ht. destruct p; try discriminate Hw; cbn [tcost]; unfold rem0; cbn [rem];
+    unfold bw, GETC, PAYC, LOADX, NODE, RD in *; try lia.
+  - cbn [top_hyp] in Ht. apply N.leb_le in Ht. rewrite Ht. lia.
+  - pose proof (AC_lb (k + um sh c cur) H k). lia.
+  - pose proof (att_lb sh c p H k). lia.
+  - pose proof (att_lb sh c p H k). lia.
+Qed.
+
+Lemma WF2_not_waiting s t p rest :
+  WF2 s -> t_status (thr s t) = Running -> t_stack (thr s t) = p :: rest -> is_waiting p = false.
+Proof.
+  intros W Hrun Hstk. pose proof (w_thr s W t Hrun) as [Htl _]. rewrite Hstk in Htl. apply Htl.
+Qed.
+
+Lemma busy_inv s t : busy s t = true ->
+  t_status (thr s t) = Running /\ exists p rest, t_stack (thr s t) = p :: rest.
+Proof.
+  unfold busy. destruct (t_status (thr s t)); try discriminate.
+  destruct (t_stack (thr s t)); try discriminate. eauto.
+Qed.
+
+Theorem solo_bound cf t : forall xs s k,
+  WF2 s -> spurs cf t xs s <= k -> solo_steps cf t xs s <= mu_of s t k.
+Proof.
+  induction xs as [|x r IH]; intros s k W Hsp; cbn [solo_steps spurs] in *; [lia|].
+  destruct (busy s t) eqn:Hb; [|lia].
+  destruct (busy_inv _ _ Hb) as (Hrun & p & rest & Hstk).
+  pose proof (WF2_top_hyp s t p rest W Hrun Hstk) as Ht.
+  pose proof (WF2_not_waiting s t p rest W Hrun Hstk) as Hnw.
+  assert (Hs : spur p x <= k) by (unfold spur_of in Hsp; rewrite Hstk in Hsp; lia).
+  pose proof (step_dec cf s t x k p rest Hrun Hstk Ht Hs) as Hd. cbn zeta in Hd.
+  destruct (step_WF2 cf s t x W) as [W' _].
+  assert (Hpos : 1 <= mu_of s t k).
+  { unfold mu_of. rewrite Hstk. cbn [mu].
+    pose proof (tcost_pos (sh s) (t_loc (thr s t)) k (headn (sh s) + np_top (sh s) k p) p Hnw Ht). lia. }
+  set (s' := fst (step cf s t x)) in *.
+  assert (Hsp' : spurs cf t r s' <= k - spur p x).
+  { unfold spur_of in Hsp. rewrite Hstk in Hsp. lia. }
+  specialize (IH s' (k - spur p x) W' Hsp').
+  destruct Hd as [Hstop|[Hnil|Hlt]].
+  - assert (busy s' t = false) as Hb'.
+    { unfold busy. destruct (t_status (thr s' t)); try reflexivity. congruence. }
+    destruct r; cbn [solo_steps]; rewrite ?Hb'; lia.
+  - assert (busy s' t = false) as Hb'.
+    { unfold busy. rewrite Hnil. destruct (t_status (thr s' t)); reflexivity. }
+    destruct r; cbn [solo_steps]; rewrite ?Hb'; lia.
+  - unfold mu_of in *. rewrite Hstk. lia.
+Qed.
+
+(** ** Closed bounds for the writer commands *)
+Definition B_swap (H k : nat) : nat := GETC (H + 1) k + PAYC (H + 1) + 2.
+Definition B_cas (H k : nat) : nat := LOADX (H + 1) k + AC (k + 1) (H + k + 3) k.
+Definition B_rcu (H k : nat) : nat := LOADX (H + 1) k + ATTg (H + k + 3) k.
+
+Definition B_cmd (c : cmd) (H k : nat) : nat :=
+  match c with
+  | CStore _ _ | CSwap _ _ _ | CIntoInner _ _ | CDropStore _ => B_swap H k
+  | CCas _ _ _ _ => B_cas H k
+  | CRcu _ _ _ => B_rcu H k
+  | _ => 0
+  end.
+
+Definition is_writer (c : cmd) : bool :=
+  match c with
+  | CStore _ _ | CSwap _ _ _ | CIntoInner _ _ | CDropStore _ | CCas _ _ _ _ | CRcu _ _ _ => true
+  | _ => false
+  end.
+
+Lemma sh_consume s v : sh (consume s v) = sh s.
+Proof. destruct v; reflexivity. Qed.
+
+Lemma cmd_mu cf s l c k s' l' stk r :
+  is_writer c = true ->
+  cmd_start cf s l c = inl (s', l', stk, r) ->
+  mu (sh s') l' k stk <= B_cmd c (headn (sh s)) k.
+Proof.
+  intros Hw. destruct c; try discriminate Hw; clear Hw; cbn [cmd_start B_cmd].
+  - (* CStore *)
+    destruct (src_val s v); intros [= <- <- <- <-]; [|cbn; lia].
+    rewrite sh_consume. cbn [mu np_top tcost tpred tcz go is_bottom wnp wcost wpred].
+    unfold B_swap. lia.
+  - (* CSwap *)
+    destruct (src_val s v); intros [= <- <- <- <-]; [|cbn; lia].
+    rewrite sh_consume. cbn [mu np_top tcost tpred tcz go is_bottom wnp wcost wpred].
+    unfold B_swap. lia.
+  - (* CCas *)
+    destruct (src_val s cur) as [a|]; [destruct (src_val s new) as [b|]|];
+      try (intros [= <- <- <- <-]; cbn; lia).
+    destruct (enter_load cf l c) as [[l0 fs]|ps] eqn:He; intros [= <- <- <- <-].
+    rewrite sh_consume.
+    eapply Nat.le_trans; [eapply mu_enter_load; exact He|].
+    cbn [go is_bottom wnp wcost wpred casj]. unfold B_cas.
+    pose proof (um_le1 (sh s) c a).
+    destruct (_ =? a); cbn [wnp wcost].
+    + pose proof (AC_mono (k + um (sh s) c a) (k + 1)
+                    (headn (sh s) + 1 + (k + um (sh s) c a + 1)) (headn (sh s) + k + 3) k k
+                    ltac:(lia) ltac:(lia) ltac:(lia)). lia.
+    + pose proof (AC_lb (k + 1) (headn (sh s) + k + 3) k). lia.
+  - (* CRcu *)
+    destruct (enter_load cf l c) as [[l0 fs]|ps] eqn:He; intros [= <- <- <- <-].
+    eapply Nat.le_trans; [eapply mu_enter_load; exact He|].
+    cbn [go is_bottom wnp wcost wpred]. unfold B_rcu, att, att_np, um, curv. rewrite N.eqb_refl.
+    pose proof (ATTg_mono (headn (sh s) + 1 + (k + 2 + 0)) (headn (sh s) + k + 3) k k ltac:(lia) ltac:(lia)). lia.
+  - (* CIntoInner *)
+    destruct (enter_pay l c (mem (sh s) (LStore c))) as [l0 fs] eqn:He. intros [= <- <- <- <-].
+    eapply Nat.le_trans; [eapply mu_enter_pay; exact He|].
+    cbn [sh]. rewrite headn_set_store. cbn [go is_bottom wnp wcost wpred]. unfold B_swap. lia.
+  - (* CDropStore *)
+    destruct (enter_pay l c (mem (sh s) (LStore c))) as [l0 fs] eqn:He. intros [= <- <- <- <-].
+    eapply Nat.le_trans; [eapply mu_enter_pay; exact He|].
+    cbn [sh]. rewrite headn_set_store. cbn [go is_bottom wnp wcost wpred]. unfold B_swap. lia.
+Qed.
+
+(** The command step (no atomic access) followed by the solo run of the command. *)
+Theorem writer_solo_bound cf t s x0 xs k c :
+  WF2 s -> t_status (thr s t) = Running -> t_stack (thr s t) = [] ->
+  nth_error (t_prog (thr s t)) (N.to_nat (t_cmdi (thr s t))) = Some c ->
+  cmd_enabled s c = true -> is_writer c = true ->
+  spurs cf t xs (fst (step cf s t x0)) <= k ->
+  solo_steps cf t xs (fst (step cf s t x0)) <= B_cmd c (headn (sh s)) k.
+Proof.
+  intros W Hrun Hstk Hc Hen Hw Hsp.
+  destruct (step_WF2 cf s t x0 W) as [W1 _].
+  eapply Nat.le_trans; [apply (solo_bound cf t xs _ k W1 Hsp)|].
+  unfold mu_of, step. rewrite Hrun, Hstk, Hc, Hen.
+  destruct (cmd_start cf s (t_loc (thr s t)) c) as [[[[s' l'] stk] r]|ps] eqn:Hcs.
+  - pose proof (cmd_mu cf s _ c k s' l' stk r Hw Hcs) as Hm.
+    destruct stk as [|p stk]; cbn [fst]; unfold set_thread; thr_simpl; cbn [t_stack t_loc].
+    + cbn [mu]. lia.
+    + exact Hm.
+  - cbn [fst]. unfold set_thread. thr_simpl. cbn [t_stack t_loc mu]. lia.
+Qed.
+
+(** The bounds, spelled out: linear in the number of debt nodes [H] for a fixed budget [k]
+    of spurious failures. *)
+Lemma B_swap_eq H k : B_swap H k = 68 * H + k + 80.
+Proof. unfold B_swap, GETC, PAYC, NODE. lia. Qed.
+Lemma B_cas_eq H k : B_cas H k = (k + 1) * (5 * H + 6 * k + 50) + 73 * H + 70 * k + 253.
+Proof. unfold B_cas, AC, CR, KS, LOADX, GETC, PAYC, NODE. ring. Qed.
+Lemma B_rcu_eq H k : B_rcu H k = k * (5 * H + 6 * k + 50) + 78 * H + 76 * k + 306.
+Proof. unfold B_rcu, ATTg, AC, CR, KS, LOADX, GETC, PAYC, NODE, FINR. ring. Qed.
+
+(** ** In terms of schedules: only [t] is scheduled, all other threads are frozen. *)
+Definition solo_sched (t : N) (xs : list N) : list (N * N) := map (fun x => (t, x)) xs.
+
+Lemma solo_steps_le cf t : forall xs s, solo_steps cf t xs s <= length xs.
+Proof.
+  induction xs as [|x r IH]; intros s; cbn; [lia|]. destruct (busy s t); [|lia].
+  specialize (IH (fst (step cf s t x))). lia.
+Qed.
+
+Lemma solo_steps_stop cf t : forall xs s,
+  solo_steps cf t xs s < length xs ->
+  busy (run_state cf s (solo_sched t (firstn (solo_steps cf t xs s) xs))) t = false.
+Proof.
+  induction xs as [|x r IH]; intros s Hlt; cbn in Hlt; [lia|].
+  cbn [solo_steps] in *. destruct (busy s t) eqn:Hb.
+  - cbn [firstn solo_sched map run_state fold_left fst snd].
+    apply IH. lia.
+  - cbn. exact Hb.
+Qed.
+
+(** C09: from any reachable state (any state satisfying the invariant), a thread that runs
+    alone and suffers at most [k] spurious compare-exchange failures is out of its current
+    operation (stack empty, or stopped) after at most [mu_of s t k] own steps. *)
+Theorem solo_completes cf t s k xs :
+  WF2 s -> spurs cf t xs s <= k -> mu_of s t k < length xs ->
+  exists n, n <= mu_of s t k /\
+            busy (run_state cf s (solo_sched t (firstn n xs))) t = false.
+Proof.
+  intros W Hsp Hlen. exists (solo_steps cf t xs s).
+  pose proof (solo_bound cf t xs s k W Hsp). split; [assumption|].
+  apply solo_steps_stop. lia.
+Qed.
+
+(** ** A closed bound for every reachable state
+
+    [FR H k] bounds the cost of any single frame when the list has at most [H] nodes; a
+    stack of [d] frames can push at most [d * (k + 3)] further nodes. *)
+Definition FR (H k : nat) : nat := ATTb H k + NODE * H + 50.
+
+Lemma FR_mono H' H k : H' <= H -> FR H' k <= FR H k.
+Proof. intros. unfold FR, NODE. pose proof (ATTb_mono H' H k k). lia. Qed.
+
+Lemma AC_le_ATTb j H k : j <= k + 1 -> LOADX H k + AC j H k <= ATTb H k.
+Proof.
+  intros Hj. pose proof (AC_mono j (S k) H H k k ltac:(lia) ltac:(lia) ltac:(lia)) as Hm.
+  rewrite AC_S in Hm. unfold ATTb, ATTg, CR, FINR in *. lia.
+Qed.
+
+Lemma phi2_le1 sh cz w ctl : phi2 sh cz w ctl <= 1.
+Proof. unfold phi2. destruct (_ || _); lia. Qed.
+
+Lemma rem0_le p : rem0 p <= 28.
+Proof.
+  unfold rem0. destruct p; cbn [rem]; try lia. destruct (_ <=? _)%N; lia.
+Qed.
+
+Lemma ATTb_lb H k : 78 * H + 3 * k + 86 <= ATTb H k.
+Proof.
+  pose proof (AC_lb k H k). unfold ATTb, ATTg, KS, LOADX, GETC, PAYC, NODE, FINR in *. lia.
+Qed.
+
+Lemma att_le_ATTb sh c q H k : att sh c q H k <= ATTb H k.
+Proof. unfold att. pose proof (ATTg_le_b H k). destruct (_ =? _); lia. Qed.
+
+Lemma tcost_FR sh k H p :
+  headn sh <= H -> pc_nodes_ok (mem sh LHead) p -> tcost sh k H p <= FR H k.
+Proof.
+  intros HH Hok. pose proof (ATTb_lb H k) as Hlb. pose proof (rem0_le p) as Hr.
+  unfold FR. unfold headn in HH.
+  destruct p; cbn [tcost]; cbn [pc_nodes_ok] in Hok; try (unfold NODE; lia);
+    try (unfold bw, GETC, PAYC, LOADX, NODE, RD, RD2 in *; lia);
+    try (pose proof (phi2_le1 sh None w ctl); unfold bw, NODE, RD, RD2 in *; lia).
+  - destruct (_ =? _); lia.
+  - pose proof (phi2_le1 sh None w newctl). destruct (is_genb newctl); unfold bw, NODE, RD, RD2 in *; lia.
+  - pose proof (um_le1 sh c cur). pose proof (AC_le_ATTb (k + um sh c cur) H k ltac:(lia)). lia.
+  - pose proof (att_le_ATTb sh c p H k). lia.
+  - pose proof (att_le_ATTb sh c p H k). lia.
+  - unfold LOADX, GETC, NODE. lia.
+Qed.
+
+Lemma np_top_le sh k p : np_top sh k p <= k + 3.
+Proof.
+  destruct p; cbn [np_top]; try lia; unfold att_np;
+    match goal with |- context [um ?s ?c ?q] => pose proof (um_le1 s c q) end; lia.
+Qed.
+
+Lemma wnp_le sh k pr w : wnp sh k pr w <= k + 3.
+Proof.
+  destruct w; cbn [wnp]; try lia.
+  - unfold casj. destruct pr; try lia; destruct (_ =? _); try lia. pose proof (um_le1 sh c cur). lia.
+  - unfold retryo. destruct (reads_store pr); [destruct (_ =? _)|]; lia.
+  - destruct pr; try lia. unfold att_np. pose proof (um_le1 sh c v). lia.
+  - destruct (rcuq sh pr c) as [[q g]|]; try lia. destruct (_ =? _); try lia. destruct g; lia.
+  - destruct (reads_store pr); try lia. unfold att_np. pose proof (um_le1 sh c q). lia.
+Qed.
+
+Lemma wcost_FR sh k H pr cz w :
+  headn sh <= H -> pc_nodes_ok (mem sh LHead) w -> wcost sh k H pr cz w <= FR H k.
+Proof.
+  intros HH Hok. pose proof (ATTb_lb H k) as Hlb. pose proof (ATTg_le_b H k) as Hgb.
+  unfold FR. unfold headn in HH.
+  destruct w; cbn [wcost]; cbn [pc_nodes_ok] in Hok; try (unfold NODE; lia).
+  - unfold PAYC, NODE. lia.
+  - pose proof (phi2_le1 sh cz w ctl). unfold bw, NODE, RD2. lia.
+  - unfold casj. pose proof (um_le1 sh c cur).
+    destruct pr; try (pose proof (AC_le_ATTb (k + 1) H k ltac:(lia)); lia);
+      destruct (_ =? _); try lia.
+    + pose proof (AC_le_ATTb (k + 1) H k ltac:(lia)). lia.
+    + pose proof (AC_le_ATTb (k + um sh c cur) H k ltac:(lia)). lia.
+  - unfold retryo. destruct (reads_store pr); [destruct (_ =? _)|].
+    + pose proof (AC_le_ATTb k H k ltac:(lia)). lia.
+    + unfold LOADX, GETC in *. lia.
+    + pose proof (AC_le_ATTb (k + 1) H k ltac:(lia)). lia.
+  - destruct pr; try lia. pose proof (att_le_ATTb sh c v H k). lia.
+  - unfold FINR. destruct (rcuq sh pr c) as [[q g]|]; try lia. destruct (_ =? _); try lia. destruct g; lia.
+  - destruct (reads_store pr); try lia. pose proof (att_le_ATTb sh c q H k). lia.
+Qed.
+
+Lemma go_FR sh k : forall stk H pr cz,
+  headn sh <= H -> Forall (pc_nodes_ok (mem sh LHead)) stk ->
+  go sh k H pr cz stk <= length stk * FR (H + length stk * (k + 3)) k.
+Proof.
+  induction stk as [|w rest IH]; intros H pr cz HH Hf; cbn [go length]; [lia|].
+  destruct (is_bottom w); [lia|].
+  pose proof (Forall_inv Hf) as Hw. pose proof (Forall_inv_tail Hf) as Hr.
+  pose proof (wnp_le sh k pr w) as Hn.
+  set (n := length rest) in *. set (H' := H + wnp sh k pr w).
+  pose proof (wcost_FR sh k H' pr cz w ltac:(unfold H'; lia) Hw) as Hc.
+  specialize (IH H' (wpred sh pr w) cz ltac:(unfold H'; lia) Hr).
+  assert (HT : H' + n * (k + 3) <= H + S n * (k + 3)) by (unfold H'; cbn [Nat.mul]; lia).
+  pose proof (FR_mono H' (H + S n * (k + 3)) k ltac:(unfold H'; cbn [Nat.mul]; lia)) as M1.
+  pose proof (FR_mono _ _ k HT) as M2.
+  assert (n * FR (H' + n * (k + 3)) k <= n * FR (H + S n * (k + 3)) k) by (apply Nat.mul_le_mono_l; exact M2).
+  cbn [Nat.mul]. fold n. Show. lia.
+Qed.
+
+(** The measure of any well-formed thread state, bounded by a closed expression in the
+    number of nodes [H], the budget [k] and the stack depth [d]. *)
+Definition B_any (H k d : nat) : nat := d * FR (H + d * (k + 3)) k.
+
+Lemma mu_B_any sh l k stk :
+  Forall (pc_nodes_ok (mem sh LHead)) stk ->
+  mu sh l k stk <= B_any (headn sh) k (length stk).
+Proof.
+  intros Hf. unfold B_any. destruct stk as [|p rest]; cbn [mu length]; [lia|].
+  pose proof (Forall_inv Hf) as Hp. pose proof (Forall_inv_tail Hf) as Hr.
+  pose proof (np_top_le sh k p) as Hn.
+  set (n := length rest). set (H' := headn sh + np_top sh k p).
+  pose proof (tcost_FR sh k H' p ltac:(unfold H'; lia) Hp) as Hc.
+  pose proof (go_FR sh k rest H' (tpred sh l p) (tcz l p) ltac:(unfold H'; lia) Hr) as Hg. fold n in Hg.
+  pose proof (FR_mono H' (headn sh + S n * (k + 3)) k ltac:(unfold H'; cbn [Nat.mul]; lia)) as M1.
+  pose proof (FR_mono (H' + n * (k + 3)) (headn sh + S n * (k + 3)) k ltac:(unfold H'; cbn [Nat.mul]; lia)) as M2.
+  assert (n * FR (H' + n * (k + 3)) k <= n * FR (headn sh + S n * (k + 3)) k) by (apply Nat.mul_le_mono_l; exact M2).
+  cbn [Nat.mul]. lia.
+Qed.
+
+Theorem solo_bound_closed cf t xs s k :
+  WF2 s -> t_status (thr s t) = Running -> spurs cf t xs s <= k ->
+  solo_steps cf t xs s <= B_any (headn (sh s)) k (length (t_stack (thr s t))).
+Proof.
+  intros W Hrun Hsp. eapply Nat.le_trans; [apply (solo_bound cf t xs s k W Hsp)|].
+  apply mu_B_any. apply (w_thr s W t Hrun).
+Qed.
+
+Print Assumptions exec_dec.
+Print Assumptions solo_bound.
+Print Assumptions solo_bound_closed.
+Print Assumptions writer_solo_bound.
+Print Assumptions solo_completes.
